@@ -177,6 +177,9 @@ func C19(c *runner.Cfg) *report.Result {
 			hooks.Yield[p] = 200
 		}
 		hooks.SleepUS["client.close"] = 100
+		// the close notification of a connection waits in front of the client's mutex (one time in
+		// five for 2 ms): meanwhile the dead connection is still listed
+		hooks.SleepUS["client.onConnClosed"] = 2000
 	}
 	e := &c09env{res: res, logger: logger}
 	srv, addr, err := StartServer(e.echoHandler(), logger, Opts(0, 0, 0, 0, false))
@@ -320,6 +323,12 @@ func C19(c *runner.Cfg) *report.Result {
 		for g := 0; g < G; g++ {
 			wg.Add(1)
 			go caller(g, 6+r.Intn(10), &wg)
+		}
+		// connections die while the server stays reachable: the callers' redials succeed at once, next
+		// to a connection that is dead and still listed
+		for k, kills := 0, r.Intn(4); k < kills; k++ {
+			time.Sleep(time.Duration(r.Intn(1500)) * time.Microsecond)
+			proxy.KillAll(r.Bool())
 		}
 		for o := 0; o < outages; o++ {
 			time.Sleep(time.Duration(r.Intn(1500)) * time.Microsecond)
